@@ -215,7 +215,7 @@ func init() {
 
 func init() {
 	register(&Rule{
-		Name: "counted-loops-advance", Props: []string{"C16", "C17", "C12"}, Engine: "AST", Floor: 8,
+		Name: "counted-loops-advance", Props: []string{"C16", "C17", "C12"}, Engine: "AST", Floor: 9,
 		Doc: "every counted loop of the library moves its counter towards its bound: a loop whose condition compares a variable with `<`, `<=` or `!=` against something steps it up in its post statement, one that compares with `>` or `>=` steps it down. A counter that moves the other way indexes below zero or past the end on its second round (a panic on a connection's goroutine ends the process) or never ends",
 		Run: func(p *Prog, r *Out) {
 			n := 0
@@ -232,13 +232,34 @@ func init() {
 				k := 0
 				ast.Inspect(fd.Body, func(nd ast.Node) bool {
 					fs, ok := nd.(*ast.ForStmt)
-					if !ok || fs.Cond == nil || fs.Post == nil {
+					if !ok || fs.Cond == nil {
 						return true
+					}
+					post := fs.Post
+					if post == nil {
+						// while-form: the step is the one top-level ++/-- of the loop body on the variable the condition tests
+						if be, isB := ast.Unparen(fs.Cond).(*ast.BinaryExpr); isB {
+							if id, isId := be.X.(*ast.Ident); isId {
+								cnt := 0
+								for _, st := range fs.Body.List {
+									if inc, isInc := st.(*ast.IncDecStmt); isInc && p.text(inc.X) == id.Name {
+										post = inc
+										cnt++
+									}
+								}
+								if cnt != 1 {
+									post = nil
+								}
+							}
+						}
+						if post == nil {
+							return true
+						}
 					}
 					// the conjunct of the condition that mentions the stepped variable
 					var v string
 					dir := 0
-					switch x := fs.Post.(type) {
+					switch x := post.(type) {
 					case *ast.IncDecStmt:
 						v = p.text(x.X)
 						if x.Tok == token.INC {
@@ -301,7 +322,7 @@ func init() {
 					k++
 					n++
 					key := name + " loop " + strconv.Itoa(k) + " steps " + v + " towards its bound"
-					r.check(dir == want, key, p.pos(fs.Pos()), "condition and post statement agree on the direction", name+": the loop `for ...; "+p.text(fs.Cond)+"; "+p.text(fs.Post)+"` steps "+v+" away from its bound")
+					r.check(dir == want, key, p.pos(fs.Pos()), "condition and post statement agree on the direction", name+": the loop `for ...; "+p.text(fs.Cond)+"; "+p.text(post)+"` steps "+v+" away from its bound")
 					return true
 				})
 				if k > 0 {
@@ -766,6 +787,115 @@ func init() {
 			if n == 0 {
 				r.undecided("optional callbacks", "?", "no call through a nil-tested function field found")
 			}
+		},
+	})
+}
+
+func init() {
+	register(&Rule{
+		Name: "stream-birth-and-timeout", Props: []string{"C17", "C01", "C13"}, Engine: "AST", Floor: 4,
+		Doc: "a stream the loop creates is put in the table and given its request context and origin (createStream) in the same breath, before any frame handler can dereference them; createStream initialises the context for this connection, records the frame type that created the stream and the time, and attaches the context. The request-timeout arm counts the streams that are due from the head of the table, stopping at the first that is not, and then resets, closes and removes exactly that many from the head",
+		Run: func(p *Prog, r *Out) {
+			hs := p.decl("(*serverConn).handleStreams")
+			cs := p.decl("(*serverConn).createStream")
+			if hs == nil || cs == nil {
+				r.undecided("anchors", "?", "handleStreams / createStream no longer resolve")
+				return
+			}
+			r.fn("(*serverConn).handleStreams", "(*serverConn).createStream")
+			// birth
+			found := false
+			ast.Inspect(hs.Body, func(n ast.Node) bool {
+				blk, ok := n.(*ast.BlockStmt)
+				if !ok {
+					return true
+				}
+				t := stmtTexts(p, blk.List)
+				ni, ai, ci := -1, -1, -1
+				for i, x := range t {
+					switch {
+					case strings.HasPrefix(x, "strm=NewStream(fr.Stream(),"):
+						ni = i
+					case x == "strms=append(strms,strm)":
+						ai = i
+					case x == "sc.createStream(sc.c,fr.Type(),strm)":
+						ci = i
+					}
+				}
+				if ni < 0 {
+					return true
+				}
+				found = true
+				// nothing between birth and createStream hands the stream to a frame handler
+				okBetween := ci > ni
+				for i := ni + 1; i < ci && okBetween; i++ {
+					inspectCalls(blk.List[i], func(c *ast.CallExpr) {
+						switch p.calleeOf(c) {
+						case "(*serverConn).handleFrame", "(*serverConn).handleHeaderFrame", "(*serverConn).dispatchHandler", "(*serverConn).writeError":
+							okBetween = false
+						}
+					})
+				}
+				r.check(ai > ni && okBetween, "a new stream enters the table and gets its context at once", p.pos(blk.List[ni].Pos()), "strm = NewStream(...); strms = append(strms, strm); ...; sc.createStream(sc.c, fr.Type(), strm)", "the stream loop no longer puts a stream it creates into the table and gives it its request context before the frame is handled: the first HEADERS on it dereferences a nil context, on the stream loop, and the process ends")
+				return true
+			})
+			if !found {
+				r.bad("a new stream enters the table and gets its context at once", p.pos(hs.Pos()), "no `strm = NewStream(fr.Stream(), ...)` found in handleStreams")
+			}
+			ct := stmtTexts(p, cs.Body.List)
+			at := func(w string) int {
+				for i, x := range ct {
+					if x == w {
+						return i
+					}
+				}
+				return -1
+			}
+			get, init2, org, set := at("ctx:=ctxPool.Get().(*fasthttp.RequestCtx)"), at("ctx.Init2(c,sc.logger,false)"), at("strm.origType=frameType"), at("strm.SetData(ctx)")
+			r.check(get >= 0 && init2 > get && org >= 0 && set > init2, "createStream initialises and attaches the context and records the origin", p.pos(cs.Pos()), "ctx := ctxPool.Get(); ...; ctx.Init2(c, logger, false); strm.origType = frameType; strm.SetData(ctx)", "createStream no longer initialises the pooled context for this connection, records which frame type created the stream, and attaches the context to it")
+			// timeout arm
+			var arm *ast.CommClause
+			ast.Inspect(hs.Body, func(n ast.Node) bool {
+				if cc, ok := n.(*ast.CommClause); ok && cc.Comm != nil && squash(p.text(cc.Comm)) == "<-sc.maxRequestTimer.C" {
+					arm = cc
+				}
+				return true
+			})
+			if arm == nil {
+				r.bad("the request-timeout arm", p.pos(hs.Pos()), "no `case <-sc.maxRequestTimer.C` in handleStreams")
+				return
+			}
+			okCount, okDrop := false, false
+			for _, st := range arm.Body {
+				switch x := st.(type) {
+				case *ast.RangeStmt:
+					if squash(p.text(x.X)) != "strms" {
+						continue
+					}
+					bt := stmtTexts(p, x.Body.List)
+					if len(bt) == 3 && strings.HasPrefix(bt[0], "isDue:=time.Now().After(strm.startedAt.Add(sc.maxRequestTime))") && bt[1] == "if!isDue{break}" && bt[2] == "deleteUntil++" {
+						okCount = true
+					}
+				case *ast.ForStmt:
+					if x.Cond == nil || squash(p.text(x.Cond)) != "deleteUntil>0" {
+						continue
+					}
+					bt := stmtTexts(p, x.Body.List)
+					first := len(bt) > 0 && bt[0] == "strm:=strms[0]"
+					cl, dec := -1, -1
+					for i, y := range bt {
+						if y == "closeStream(strm)" {
+							cl = i
+						}
+						if y == "deleteUntil--" {
+							dec = i
+						}
+					}
+					okDrop = first && cl > 0 && dec > cl
+				}
+			}
+			r.check(okCount, "the timeout arm counts the due streams from the head and stops at the first that is not", p.pos(arm.Pos()), "for _, strm := range strms { isDue := ...; if !isDue { break }; deleteUntil++ }", "the request-timeout arm no longer counts exactly the leading streams whose time is up: a stream that is not due is reset, or one that is due is left")
+			r.check(okDrop, "the timeout arm drops exactly that many from the head", p.pos(arm.Pos()), "for deleteUntil > 0 { strm := strms[0]; ...; closeStream(strm); deleteUntil-- }", "the request-timeout arm no longer takes, closes and removes the head of the table once per counted stream: it indexes an empty table (a panic on the stream loop) or resets streams that are not due")
 		},
 	})
 }
